@@ -31,7 +31,9 @@ def roundDivEven (a k : Nat) : Nat :=
 /-- Go `float32(f)` on the bit pattern of `f`, result as the 32-bit pattern (as Nat) -/
 def f64ToF32 (b : BitVec 64) : Nat :=
   match F64.decode b with
-  | .nan => 0x7FC00000
+  | .nan =>
+    -- CVTSD2SS: sign kept, the 23 high payload bits kept, quiet bit set
+    (if b.msb then 2 ^ 31 else 0) + 0x7FC00000 + (b.toNat % 2 ^ 51) / 2 ^ 29
   | .inf neg => (if neg then 2 ^ 31 else 0) + 0x7F800000
   | .fin neg mag =>
     let s := if neg then 2 ^ 31 else 0
@@ -61,10 +63,10 @@ def f32ToF64 (w : Nat) : BitVec 64 :=
 /-- `math.MaxFloat32` in units of 2^-1074 -/
 def maxF32Mag : Nat := (2 ^ 24 - 1) * 2 ^ 104 * 2 ^ 1074
 
-/-- `checkFloatSize(math.MaxFloat32)`: finite and |f| ≤ MaxFloat32, or infinite; NaN fails -/
+/-- `checkFloatSize(math.MaxFloat32)`: finite and |f| ≤ MaxFloat32, or infinite, or NaN -/
 def checkFloatSize (b : BitVec 64) : Bool :=
   match F64.decode b with
-  | .nan => false
+  | .nan => true
   | .inf _ => true
   | .fin _ mag => mag ≤ maxF32Mag
 
@@ -165,9 +167,9 @@ def packBody (e : Endian) (b : Body) (vs : List Val) : Except Err (Bytes × List
     match nextStr vs with
     | .error err => .error err
     | .ok (s, vs') =>
-      -- `writeStr(maxLen)`: `diff` is only computed when maxLen > 0, so `c0` writes the whole string
-      if n > 0 ∧ s.length > n then .error .strLonger
-      else .ok (s ++ zeros (if n > 0 then n - s.length else 0), vs')
+      -- `writeFixedStr(n)`
+      if s.length > n then .error .strLonger
+      else .ok (s ++ zeros (n - s.length), vs')
   | .zstr =>
     match nextStr vs with
     | .error err => .error err
@@ -223,7 +225,11 @@ def bodySize : Body → Nat
   | .lstr _ => 0
   | .padByte => 1
 
-/-- `PackSize` on Go's 64-bit `uint` (wraps; there is no overflow test in the Go code) -/
+/-- `inc(n)`: the running size must stay a Lua integer -/
+def sizeInc (size n : Nat) : Except Err Nat :=
+  if n > 2 ^ 63 - 1 ∨ size > 2 ^ 63 - 1 - n then .error .resultTooLarge else .ok (size + n)
+
+/-- `PackSize` -/
 def sizeLoop : Nat → Rd → Bytes → Nat → Except Err Nat
   | 0, _, _, _ => .error .badOption
   | _ + 1, _, [], size => .ok size
@@ -235,8 +241,13 @@ def sizeLoop : Nat → Rd → Bytes → Nat → Except Err Nat
       match alignPad rd true al size with
       | .error e => .error e
       | .ok pad =>
-        if ao then sizeLoop fuel rd' rest' ((size + pad) % 2 ^ 64)
-        else sizeLoop fuel rd' rest' ((size + pad + bodySize body) % 2 ^ 64)
+        match sizeInc size pad with
+        | .error e => .error e
+        | .ok size1 =>
+          if ao then sizeLoop fuel rd' rest' size1
+          else match sizeInc size1 (bodySize body) with
+            | .error e => .error e
+            | .ok size2 => sizeLoop fuel rd' rest' size2
 
 def packsize (fmt : Bytes) : Except Err Nat := sizeLoop (fmt.length + 1) {} fmt 0
 
